@@ -17,5 +17,5 @@ fi
 cp "$HERE/KNOWN_FINDINGS.txt" "$EV/" 2>/dev/null
 export GOFLAGS=-mod=mod GOPROXY=off GOSUMDB=off GOTOOLCHAIN=local CGO_ENABLED=0; unset GOWORK
 ( cd "$WT/repo" && go build ./... ) || { echo "MUTANT DOES NOT BUILD"; exit 4; }
-"$HERE/bin/ssecheck" -repo "$WT/repo" -verif "$EV" -eval 2>&1 | sed "s#$EV/##" | cut -c1-400
+"${SSECHECK_BIN:-$HERE/bin/ssecheck}" -repo "$WT/repo" -verif "$EV" -eval 2>&1 | sed "s#$EV/##" | cut -c1-400
 exit 0
